@@ -60,40 +60,74 @@ theorem atomParamXml_ok (C : Codec) {a : Atom} {r : Option Xml} (hs : ∀ p, a =
 
 def arrKidName (refArray : Bool) : Name := if refArray then "VALUE.REFERENCE".toList else "VALUE".toList
 
-/-- items of an array the `itemMismatch` test lets through, none of which became `None` -/
-theorem itemsParamXml_ok (C : Codec) (refArray : Bool) : ∀ {l : List PItem} {xs : List (Option Xml)},
+theorem nullItem_facts : structNode D nullItem = true ∧ ∃ as ks, nullItem = .elem "VALUE.NULL".toList as ks := by
+  have hn : sendValueNull = true := by rfl
+  refine ⟨by unfold nullItem; exact struct_nullItem, ?_⟩
+  unfold nullItem
+  simp only [hn, if_true]
+  exact ⟨_, _, by simp only [E]; rfl⟩
+
+/-- one item of an array the `itemMismatch` test lets through: VALUE (VALUE.REFERENCE in a reference array) or the
+    NULL item -/
+theorem itemParamXml_ok (C : Codec) (refArray : Bool) {i : PItem} {x : Xml} (hs : pitemShape i = true)
+    (hm : itemMismatch refArray i = false) (h : itemParamXml C i = .ok x) :
+    structNode D x = true ∧ ∃ as ks n, x = .elem n as ks ∧ (n = arrKidName refArray ∨ n = "VALUE.NULL".toList) := by
+  have hnull : ∀ y, (Except.ok nullItem : Except PyExc Xml) = Except.ok y → (structNode D y = true ∧
+      ∃ as ks n, y = .elem n as ks ∧ (n = arrKidName refArray ∨ n = "VALUE.NULL".toList)) := by
+    intro y hy; cases hy
+    obtain ⟨h1, as, ks, h2⟩ := nullItem_facts
+    exact ⟨h1, as, ks, _, h2, .inr rfl⟩
+  have hval : ∀ (a : Atom) y, refArray = false → checked (valueElem (atomText C a)) = .ok y →
+      (structNode D y = true ∧ ∃ as ks n, y = .elem n as ks ∧ (n = arrKidName refArray ∨ n = "VALUE.NULL".toList)) := by
+    intro a y hr hy
+    obtain ⟨rfl, _⟩ := checked_ok hy
+    exact ⟨struct_valueElem _, _, _, _, by simp only [valueElem, E]; rfl, .inl (by simp [arrKidName, hr])⟩
+  cases i with
+  | null => simp only [itemParamXml] at h; exact hnull x h
+  | list => simp [itemMismatch] at hm
+  | atom a =>
+    cases a with
+    | null => simp only [itemParamXml] at h; exact hnull x h
+    | ref p =>
+      simp only [itemParamXml] at h
+      obtain ⟨y, hy, h⟩ := bind_ok h
+      cases h
+      obtain ⟨rfl, _⟩ := checked_ok hy
+      have hr : refArray = true := by cases refArray <;> simp [itemMismatch] at hm ⊢
+      exact ⟨struct_valueReference (struct_encPath C p (by simpa [pitemShape] using hs)) (encPath_name C p),
+        _, _, _, by simp only [E]; rfl, .inl (by simp [arrKidName, hr])⟩
+    | pyint v => simp [itemParamXml] at h
+    | pyfloat b => simp [itemParamXml] at h
+    | str s => simp only [itemParamXml] at h; exact hval _ x (by cases refArray <;> simp [itemMismatch] at hm ⊢) h
+    | char16 s => simp only [itemParamXml] at h; exact hval _ x (by cases refArray <;> simp [itemMismatch] at hm ⊢) h
+    | bool b => simp only [itemParamXml] at h; exact hval _ x (by cases refArray <;> simp [itemMismatch] at hm ⊢) h
+    | int t v => simp only [itemParamXml] at h; exact hval _ x (by cases refArray <;> simp [itemMismatch] at hm ⊢) h
+    | real w b => simp only [itemParamXml] at h; exact hval _ x (by cases refArray <;> simp [itemMismatch] at hm ⊢) h
+    | dt s => simp only [itemParamXml] at h; exact hval _ x (by cases refArray <;> simp [itemMismatch] at hm ⊢) h
+    | einst i => simp only [itemParamXml] at h; exact hval _ x (by cases refArray <;> simp [itemMismatch] at hm ⊢) h
+    | ecls c => simp only [itemParamXml] at h; exact hval _ x (by cases refArray <;> simp [itemMismatch] at hm ⊢) h
+
+theorem itemsParamXml_ok (C : Codec) (refArray : Bool) : ∀ {l : List PItem} {xs : List Xml},
     l.all pitemShape = true → l.any (itemMismatch refArray) = false → itemsParamXml C l = .ok xs →
-    xs.any Option.isNone = false →
-    structNodes D (xs.filterMap id) = true ∧ allElems (xs.filterMap id) = true ∧
-    kidNames (xs.filterMap id) = List.replicate (xs.filterMap id).length (arrKidName refArray)
-  | [], xs, _, _, h, _ => by simp only [itemsParamXml] at h; cases h; simp [structNodes, allElems, kidNames]
-  | i :: l, xs, hs, hm, h, hn => by
+    structNodes D xs = true ∧ allElems xs = true ∧
+    ∀ n ∈ kidNames xs, n = arrKidName refArray ∨ n = "VALUE.NULL".toList
+  | [], xs, _, _, h => by simp only [itemsParamXml] at h; cases h; simp [structNodes, allElems, kidNames]
+  | i :: l, xs, hs, hm, h => by
     simp only [itemsParamXml] at h
     obtain ⟨x, hx, h⟩ := bind_ok h
     obtain ⟨xs', hxs, h⟩ := bind_ok h
     cases h
     simp only [List.all_cons, Bool.and_eq_true] at hs
-    simp only [List.any_cons, Bool.or_eq_false_iff] at hm hn
-    obtain ⟨r1, r2, r3⟩ := itemsParamXml_ok C refArray hs.2 hm.2 hxs hn.2
-    cases i with
-    | null => simp only [itemParamXml] at hx; cases hx; simp at hn
-    | list => simp [itemMismatch] at hm
-    | atom a =>
-      simp only [itemParamXml] at hx
-      have hsa : ∀ p, a = .ref p → shapePath p = true := by
-        intro p hp; subst hp; simpa [pitemShape] using hs.1
-      rcases atomParamXml_ok C hsa hx with rfl | ⟨k, as, ks, rfl, hk, hstruct⟩
-      · simp at hn
-      · have hnotnull : a ≠ .null := by intro e; subst e; simp [atomParamXml] at hx
-        have hname : atomKidName a = arrKidName refArray := by
-          have hmm := hm.1
-          cases a <;> cases refArray <;> simp [itemMismatch] at hmm <;>
-            first | exact absurd rfl hnotnull | simp [atomKidName, arrKidName, isRef]
-        subst hk
-        simp only [List.filterMap_cons, id]
-        rw [structNodes_cons, hstruct, r1]
-        refine ⟨rfl, by simpa [allElems] using r2, ?_⟩
-        simp only [kidNames, r3, List.length_cons, List.replicate_succ, hname]
+    simp only [List.any_cons, Bool.or_eq_false_iff] at hm
+    obtain ⟨r1, r2, r3⟩ := itemsParamXml_ok C refArray hs.2 hm.2 hxs
+    obtain ⟨hstruct, as, ks, n, rfl, hn⟩ := itemParamXml_ok C refArray hs.1 hm.1 hx
+    rw [structNodes_cons, hstruct, r1]
+    refine ⟨rfl, by simpa [allElems] using r2, ?_⟩
+    intro m hm'
+    simp only [kidNames, List.mem_cons] at hm'
+    rcases hm' with rfl | hm'
+    · exact hn
+    · exact r3 m hm'
 
 theorem paramValueXml_ok (C : Codec) {v : PVal} {r : Option Xml} (hs : pvalShape v = true)
     (h : paramValueXml C v = .ok r) :
@@ -115,40 +149,31 @@ theorem paramValueXml_ok (C : Codec) {v : PVal} {r : Option Xml} (hs : pvalShape
     · cases h
     · rename_i hmm
       obtain ⟨xs, hxs, h⟩ := bind_ok h
-      split at h
-      · cases h
-      · rename_i hnn
-        cases h
-        have hm' : l.any (itemMismatch (isRefArray l)) = false := Bool.eq_false_iff.mpr hmm
-        have hn' : xs.any Option.isNone = false := Bool.eq_false_iff.mpr hnn
-        obtain ⟨r1, r2, r3⟩ := itemsParamXml_ok C _ (by simpa [pvalShape] using hs) hm' hxs hn'
-        right
-        cases hra : isRefArray l with
-        | true =>
-          rw [hra] at r3
-          refine ⟨_, "VALUE.REFARRAY".toList, [], xs.filterMap id, rfl, by simp [E],
-            by simp [paramValueKidNames], ?_⟩
-          apply struct_elem dtdDecl_VALUE_REFARRAY (by rfl) (by decide) _ r1
-          apply content_children r2
-          rw [r3]
-          apply lang_star_letters
-          intro x hx
-          have : x = "VALUE.REFERENCE".toList := by
-            simpa [arrKidName] using (List.eq_of_mem_replicate hx)
-          subst this
-          exact lang_alts_mem (r := .sym _) (by simp) (Lang.sym _)
-        | false =>
-          rw [hra] at r3
-          refine ⟨_, "VALUE.ARRAY".toList, [], xs.filterMap id, rfl, by simp [E],
-            by simp [paramValueKidNames], ?_⟩
-          apply struct_elem dtdDecl_VALUE_ARRAY (by rfl) (by decide) _ r1
-          apply content_children r2
-          rw [r3]
-          apply lang_star_valueNames
-          intro x hx
-          have : x = "VALUE".toList := by simpa [arrKidName] using (List.eq_of_mem_replicate hx)
-          subst this
-          simp [valueNames]
+      cases h
+      have hm' : l.any (itemMismatch (isRefArray l)) = false := Bool.eq_false_iff.mpr hmm
+      obtain ⟨r1, r2, r3⟩ := itemsParamXml_ok C _ (by simpa [pvalShape] using hs) hm' hxs
+      right
+      cases hra : isRefArray l with
+      | true =>
+        rw [hra] at r3
+        refine ⟨_, "VALUE.REFARRAY".toList, [], xs, rfl, by simp [E], by simp [paramValueKidNames], ?_⟩
+        apply struct_elem dtdDecl_VALUE_REFARRAY (by rfl) (by decide) _ r1
+        apply content_children r2
+        apply lang_star_letters
+        intro x hx
+        rcases r3 x hx with rfl | rfl
+        · have : arrKidName true = "VALUE.REFERENCE".toList := rfl
+          rw [this]
+          exact lang_alts_mem (r := .sym "VALUE.REFERENCE".toList) (by simp) (Lang.sym _)
+        · exact lang_alts_mem (r := .sym "VALUE.NULL".toList) (by simp) (Lang.sym _)
+      | false =>
+        rw [hra] at r3
+        refine ⟨_, "VALUE.ARRAY".toList, [], xs, rfl, by simp [E], by simp [paramValueKidNames], ?_⟩
+        apply struct_elem dtdDecl_VALUE_ARRAY (by rfl) (by decide) _ r1
+        apply content_children r2
+        apply lang_star_valueNames
+        intro x hx
+        rcases r3 x hx with rfl | rfl <;> simp [valueNames, arrKidName]
 
 theorem inferAtom_ok {a : Atom} {t : Option Str} (h : inferAtom a = .ok t) :
     ∀ s, t = some s → paramTypes.contains s = true := by
